@@ -96,12 +96,15 @@ func (c *Chain[I, O]) compile(ctx context.Context, option *graphCompileOptions) 
 // addEndIfNeeded add END edge of the chain/graph.
 // only run once when compiling.
 func (c *Chain[I, O]) addEndIfNeeded() error {
-	if c.hasEnd {
-		return nil
-	}
-
+	// the deferred error is reported by every Compile, also after the END edges have been
+	// added: otherwise an invalid Append* made after a failed Compile attempt (or after a
+	// successful one: ErrChainCompiled) would be dropped silently
 	if c.err != nil {
 		return c.err
+	}
+
+	if c.hasEnd {
+		return nil
 	}
 
 	if len(c.preNodeKeys) == 0 {
